@@ -14,6 +14,8 @@ type deferRec struct {
 	callee   *ssa.Function
 	args     []Val
 	bindings []Val
+	reach    *Term // path condition at the defer statement
+	snap     map[*ssa.Alloc]Val // write-once locals captured by the literal, as they were at the defer statement
 }
 
 var fxDefers = map[*fnExec][]deferRec{}
@@ -45,7 +47,15 @@ func (fx *fnExec) recordDefer(in *ssa.Defer, st *State) bool {
 			bindings = append(bindings, fx.value(b, st))
 		}
 	}
-	fxDefers[fx] = append(fxDefers[fx], deferRec{in: in, callee: callee, args: args, bindings: bindings})
+	snap := map[*ssa.Alloc]Val{}
+	for _, b := range bindings {
+		if b.Ptr != nil && b.Ptr.Kind == PLocal && b.Ptr.Alloc != nil && len(b.Ptr.Path) == 0 && storesTo(b.Ptr.Alloc) == 1 {
+			if v, ok := st.Allocs[b.Ptr.Alloc]; ok {
+				snap[b.Ptr.Alloc] = v
+			}
+		}
+	}
+	fxDefers[fx] = append(fxDefers[fx], deferRec{in: in, callee: callee, args: args, bindings: bindings, reach: st.Reach, snap: snap})
 	return true
 }
 
@@ -53,10 +63,67 @@ func (fx *fnExec) runDefers(at *ssa.RunDefers, st *State) {
 	recs := fxDefers[fx]
 	for i := len(recs) - 1; i >= 0; i-- {
 		r := recs[i]
-		if !r.in.Block().Dominates(at.Block()) {
-			fail("%s: defer statement does not dominate a return (conditional defer is not supported)", fx.fn)
-		}
 		fx.curCall = r.in
-		fx.callStatic(r.callee, r.args, r.bindings, st, r.in.Pos(), nil)
+		if r.in.Block().Dominates(at.Block()) {
+			fx.callStatic(r.callee, r.args, r.bindings, st, r.in.Pos(), nil)
+			continue
+		}
+		// conditional defer: the call runs exactly on the paths that went through the defer statement
+		yes := st.clone()
+		yes.Reach = And(st.Reach, r.reach)
+		no := st.clone()
+		no.Reach = And(st.Reach, Not(r.reach))
+		// a local declared on the conditional path is not part of the merged state any more; when it
+		// is written only once (its initialisation, before the defer statement) its value is still
+		// the one recorded at the defer statement
+		for a, v := range r.snap {
+			if _, ok := yes.Allocs[a]; !ok {
+				yes.Allocs[a] = v
+			}
+		}
+		if !yes.Reach.IsFalse() {
+			fx.callStatic(r.callee, r.args, r.bindings, yes, r.in.Pos(), nil)
+		}
+		for a := range r.snap {
+			if _, ok := st.Allocs[a]; !ok {
+				delete(yes.Allocs, a)
+			}
+		}
+		m, err := mergeStates([]edgeIn{{st: yes, cond: yes.Reach}, {st: no, cond: no.Reach}})
+		if err != nil {
+			fail("%s: conditional defer: %v", fx.fn, err)
+		}
+		*st = *m
 	}
+}
+
+// storesTo counts the store instructions whose address is the Alloc itself (in its function and in
+// the function literals that capture it).
+func storesTo(a *ssa.Alloc) int {
+	n := 0
+	var visit func(v ssa.Value, depth int)
+	visit = func(v ssa.Value, depth int) {
+		refs := v.Referrers()
+		if refs == nil || depth > 3 {
+			n += 2 // unknown: treat as written more than once
+			return
+		}
+		for _, r := range *refs {
+			switch r := r.(type) {
+			case *ssa.Store:
+				if r.Addr == v {
+					n++
+				}
+			case *ssa.MakeClosure:
+				fn := r.Fn.(*ssa.Function)
+				for i, b := range r.Bindings {
+					if b == v && i < len(fn.FreeVars) {
+						visit(fn.FreeVars[i], depth+1)
+					}
+				}
+			}
+		}
+	}
+	visit(a, 0)
+	return n
 }
